@@ -21,7 +21,7 @@ META = {
 }
 
 FLAGS = list(itertools.product([True, False], repeat=4))
-PLANS = {"none": [], "34": [(0, 3, 4)], "68-24": [(0, 6, 8), (144, 2, 4)], "34-58": [(0, 3, 4), (72, 5, 8)], "44-34": [(0, 4, 4), (96, 3, 4)]}
+PLANS = {"none": [], "38": [(0, 3, 8)], "34": [(0, 3, 4)], "68-24": [(0, 6, 8), (144, 2, 4)], "34-58": [(0, 3, 4), (72, 5, 8)], "44-34": [(0, 4, 4), (96, 3, 4)]}
 
 
 def mk(fl, bins, ntr, prange=(60, 62), nv=None):
